@@ -96,6 +96,12 @@ def concretize(v, model, memo=None):
         for k, x in v.fields.items():
             out['fields'][k] = concretize(x, model, memo)
         return out
+    if isinstance(v, SeqPart):
+        n = ev(v.n).as_long()
+        return {'__segment__': v.name, 'n': n}
+    if isinstance(v, SymColl):
+        n = ev(v.part.n).as_long()
+        return {'__coll__': v.pytype.__name__, 'name': v.part.name, 'n': n}
     if isinstance(v, SOpaque):
         t = v.truth
         return {'__opaque__': v.name, 'truth': (z3.is_true(ev(t)) if t is not None and not isinstance(t, bool) else t)}
@@ -206,7 +212,7 @@ def frame_equal(I, a, b, seen=None):
         if list(a.d.keys()) != list(b.d.keys()):
             return False
         return zand(*[frame_equal(I, a.d[k], b.d[k], seen) for k in a.d])
-    if isinstance(a, (SOpaque,)) or isinstance(b, (SOpaque,)):
+    if isinstance(a, (SOpaque, SeqPart)) or isinstance(b, (SOpaque, SeqPart)):
         return a is b
     if kind_of(a) != kind_of(b):
         return False
